@@ -583,3 +583,76 @@ def rules_join(rep, db, inline):
             if not why and got != names[1:]:
                 why = "the arguments are inserted in the order %s, expected %s" % (got, names[1:])
         (rep.fail if why else rep.ok)("JOIN", key, F.primary_site(fn), F.describe(fn)[:160], **({"why": why} if why else {"how": "%d ranges" % (len(names) - 1)}))
+
+
+def rules_find_by(rep, db, inline):
+    rep.rule("FIND-BY", "find_by_opt applies the function to the elements in order, stops at the first result that has a value and returns that result; "
+                        "nothing when no element yields one", floor=6)
+    cfg = sx.Config(inline_prefixes=tuple(inline) + ("fcppt::range::",), loop_bound=2, lvalues=True, iter_positions=True)
+    seen = set()
+    for fn in db.fns(A + "find_by_opt"):
+        k_ = tuple(fn.get("targs") or [])
+        if k_ in seen or "std::set" in str(k_[0]) or "std::map" in str(k_[0]):
+            continue
+        if re.sub(r"^const\s+", "", str(k_[0])).startswith(("fcppt::int_range", "fcppt::enum_::range")):
+            continue      # ranges with fcppt's own iterators: their stepping is C18's FACADE / INT / ENUM
+        seen.add(k_)
+        key = "find_by_opt<%s>" % ", ".join(x.replace("std::", "").replace("drv::", "") for x in k_)[:100]
+        r, f = fn["params"][0]["name"], fn["params"][1]["name"]
+        try:
+            ps = sx.Interp(db, cfg).paths(fn, limit=100)
+        except sx.Unsupported as e:
+            rep.broken("C16 FIND-BY %s: %s" % (key, e))
+            continue
+        why = None
+        outcomes = set()
+        for p in ps:
+            if p.outcome[0] != "return":
+                continue
+            evs = p.events
+            calls = [(i, e) for i, e in enumerate(evs, 1) if evname(e) == "call"]
+            # every call applies f to the element at position k = its ordinal
+            for k, (i, e) in enumerate(calls):
+                x = e[1][1] if len(e[1]) == 2 else None
+                pos = _pos(_deref_of(x), evs, r) if x is not None and _deref_of(x) is not None else None
+                if sx.show(e[1][0]) != f or pos != k:
+                    why = "call %d of the function is %s: not the function applied to element %d" % (k, sx.show_event(e)[:120], k)
+                    break
+            if why:
+                break
+            hv = []
+            n = None
+            for d, v in p.decisions:
+                t = sx.show(d)
+                m = re.match(r"^has_value\(#(\d+):call\)$", t)
+                if m:
+                    hv.append((int(m.group(1)), v))
+                    continue
+                if isinstance(d, tuple) and d and d[0] == "cmp" and d[1] in ("==", "!="):
+                    a, b = _pos(d[2], evs, r), _pos(d[3], evs, r)
+                    if "end" in (a, b):
+                        eq = v if d[1] == "==" else not v
+                        if eq:
+                            n = a if b == "end" else b
+                        continue
+                why = "a decision that is neither an end test nor 'the result has a value': %s" % t
+                break
+            if why:
+                break
+            if [i for i, v in hv] != [i for i, e in calls]:
+                why = "not every result of the function is tested for having a value, in order"
+                break
+            out = sx.show(p.outcome[1])
+            if hv and hv[-1][1]:
+                if any(v for i, v in hv[:-1]) or out != "#%d:call" % hv[-1][0]:
+                    why = "a result with a value was found at call %d but the outcome is %s" % (len(hv) - 1, out)
+                outcomes.add("found")
+            else:
+                if n is None or n != len(calls) or not out.endswith(":none"):
+                    why = "no result has a value after %d calls (range length %s) but the outcome is %s" % (len(calls), n, out)
+                outcomes.add("none")
+            if why:
+                break
+        if not why and outcomes != {"found", "none"}:
+            why = "found / nothing are not both possible"
+        (rep.fail if why else rep.ok)("FIND-BY", key, F.primary_site(fn), F.describe(fn)[:160], **({"why": why} if why else {"how": "table"}))
